@@ -179,7 +179,7 @@ Section Embed.
     apply documented_skip; auto.
     apply documented_go with (tr0 := []) (s' := s); [cbn [do_stage]; now rewrite <- V1 | reflexivity |].
     (* target dimension *)
-    assert (C2 : do_check pm (rq_n r) cell_target_dimension =
+    assert (C2 : do_check pm (mk_env r pm) cell_target_dimension =
                  if out_of_range r cell_target_dimension then Some SwWrongValue else None).
     { apply check_ok; auto. }
     assert (V2 : violated r (CRange [] cell_target_dimension) = out_of_range r cell_target_dimension)
